@@ -229,7 +229,8 @@ pub fn layout(rng: &mut Rng, t: &Term, top: bool) -> Option<String> {
             }
             if rng.chance(1, 4) { body = format!(" {body} "); }
             let op = if *neg { format!("not{}in", [" ", "  ", "\t"][rng.below(3)]) } else { "in".to_string() };
-            atom(rng, VKEY_TEXT[*k].to_string(), &op, q(rng, &body)?, true)
+            let lit = q(rng, &body)?;
+            atom(rng, VKEY_TEXT[*k].to_string(), &op, lit, true)
         }
         Term::S(k, op, v) => {
             let (tok, _, sym) = SOPS[*op];
